@@ -49,6 +49,11 @@ type Conn struct {
 	Src    int    `json:"src"`
 	Action string `json:"action"`
 	Dst    *int   `json:"dst"`
+	// Late (harness only; the model's table has the connection from the start): the connection is not made while the flow
+	// is built but DURING the run, by the post callback of Src itself, just before it returns the action that will be
+	// looked up — a node (re)wiring its own outgoing edge. Only the last connection of a (flow, src, action) triple is
+	// ever late, so the table at every lookup is the one the model routes on.
+	Late bool `json:"late,omitempty"`
 }
 
 type FlowDef struct {
@@ -181,6 +186,7 @@ type runtimeEnv struct {
 	// panic family: the callback named here ("p", "e<k>", "f", "o") panics with panicVal right after it was recorded
 	panicAt  string
 	panicVal any
+	late     map[int][]lateConn // connections made during the run by the post callback of their source node
 }
 
 func (e *runtimeEnv) maybePanic(at string) {
@@ -467,6 +473,9 @@ func (l *leafImpl) post(shared *flyt.SharedStore, pv, ev any) (flyt.Action, erro
 	o := parseOutAct(e.leafScript(rt.id, v).Post)
 	if o.cancels {
 		e.cancelNow()
+	}
+	for _, lc := range e.late[rt.id] {
+		e.connect(lc.f, lc.c.Src, lc.c.Action, lc.c.Dst)
 	}
 	if !o.ok {
 		return flyt.Action(o.act), userError(o.errN)
@@ -1048,7 +1057,7 @@ func (e *runtimeEnv) buildBatchWith(b *batchImpl) *flyt.BatchNodeBuilder {
 
 func newRuntime(sc *FlowScenario) *runtimeEnv {
 	e := &runtimeEnv{sc: sc, leafScr: map[[2]int]*LeafScript{}, batchScr: map[[2]int]*BatchScript{},
-		nodes: map[int]flyt.Node{}, rts: map[int]*nodeRT{}, valueNodes: map[int]*leafImpl{}}
+		nodes: map[int]flyt.Node{}, rts: map[int]*nodeRT{}, valueNodes: map[int]*leafImpl{}, late: map[int][]lateConn{}}
 	for i := range sc.LeafScripts {
 		s := &sc.LeafScripts[i]
 		e.leafScr[[2]int{s.N, s.V}] = s
@@ -1104,10 +1113,63 @@ func newRuntime(sc *FlowScenario) *runtimeEnv {
 			continue
 		}
 		for _, c := range n.Flow.Ops {
+			if c.Late {
+				e.late[c.Src] = append(e.late[c.Src], lateConn{flows[n.ID], c})
+				continue
+			}
 			e.connect(flows[n.ID], c.Src, c.Action, c.Dst)
 		}
 	}
 	return e
+}
+
+type lateConn struct {
+	f *flyt.Flow
+	c Conn
+}
+
+// lateify marks connections as late (see Conn.Late): the last connection of its (flow, src, action) triple, whose source is
+// a leaf with a post callback, in scenarios without Connect steps between runs. `h` seeds the choice.
+func lateify(sc *FlowScenario, h uint64) {
+	for _, st := range sc.Steps {
+		if st.Connect != nil {
+			return
+		}
+	}
+	leafPost := map[int]bool{}
+	for _, n := range sc.Nodes {
+		if n.Leaf != nil && n.Leaf.PostS != "absent" && n.Leaf.Impl != "value" {
+			leafPost[n.ID] = true
+		}
+	}
+	for i := range sc.Nodes {
+		fl := sc.Nodes[i].Flow
+		if fl == nil || len(fl.Ops) == 0 {
+			continue
+		}
+		ops := append([]Conn{}, fl.Ops...)
+		changed := false
+		for j := range ops {
+			h = h*6364136223846793005 + 1442695040888963407
+			if (h>>33)%3 != 0 || !leafPost[ops[j].Src] {
+				continue
+			}
+			last := true
+			for k := j + 1; k < len(ops); k++ {
+				if ops[k].Src == ops[j].Src && ops[k].Action == ops[j].Action {
+					last = false
+				}
+			}
+			if last {
+				ops[j].Late, changed = true, true
+			}
+		}
+		if changed {
+			nf := *fl
+			nf.Ops = ops
+			sc.Nodes[i].Flow = &nf
+		}
+	}
 }
 
 func (e *runtimeEnv) connect(f *flyt.Flow, src int, action string, dst *int) {
